@@ -632,7 +632,7 @@ package controller
 //@   requires [C03,C04] forall i, j :: 0 <= i && i < j && j < len(c.Opts.NodeGroups) ==> c.nodeGroups[c.Opts.NodeGroups[i].Name] != c.nodeGroups[c.Opts.NodeGroups[j].Name]
 //@   modifies Jlen, Jkind, Jname, Jnode, Jok, Jesc, Jnum, Jerr, TGT, clock, nTaintOK, nUntaintOK, getSeen, nGet, nKFail, LNb, LNo, LNl, LNby, LNok, LPb, LPo, LPl, nScans, nBuildFail, c.cloudProvider
 //@   modifies mapvals(c.nodeGroups), allof("[]string")
-//@   ensures [C20] err == nil ==> ctlInv(c)
+//@   ensures err == nil ==> ctlInv(c)
 //@   ensures [C12,C20] err != nil && nBuildFail == old(nBuildFail) ==> isNotInGroup(err) || isPlainErr(err)
 //@   ensures [C20] err != nil ==> isNotInGroup(err)
 //@   ensures [C12] err == nil ==> nScans == old(nScans) + len(c.Opts.NodeGroups)
@@ -763,4 +763,4 @@ package controller
 //@ loop #0
 //@   modifies Jlen, Jkind, Jname, Jnode, Jok, Jesc, Jnum, Jerr, TGT, clock, nTaintOK, nUntaintOK, getSeen, nGet, nKFail, LNb, LNo, LNl, LNby, LNok, LPb, LPo, LPl, nScans, nBuildFail, c.cloudProvider
 //@   modifies mapvals(c.nodeGroups), allof("[]string")
-//@   invariant [C20] ctlInv(c)
+//@   invariant ctlInv(c)
